@@ -269,7 +269,7 @@ func (h *hist) judgeHit(g *crec) {
 	}
 	if x := h.supersededBefore(g.key, s, g, false); x != nil {
 		shape := map[string]string{"set": "superseded-value", "del": "hit-after-delete", "reset": "hit-after-reset"}[x.kind]
-		h.violation("conc/get/"+shape+"/"+h.hitContext(g), fmt.Sprintf("%v returned the value of %v although %v lies entirely between them", g, s, x))
+		h.violation("conc/get/"+shape+"/"+h.raceContext(g, false), fmt.Sprintf("%v returned the value of %v although %v lies entirely between them", g, s, x))
 		return
 	}
 	rec.Count("conc.get.hit", 1)
@@ -359,7 +359,7 @@ func (h *hist) judgeMiss(g *crec) {
 	if h.cold[key] {
 		shape = "untouched-key"
 	}
-	h.violation("conc/get/miss-live-entry/"+shape+"/"+h.missContext(g, liveSets), fmt.Sprintf("%v missed although every Set that can be the latest one is live and no Delete/Reset/documented cleanup race can explain it; candidates: %s", g, recList(liveSets)))
+	h.violation("conc/get/miss-live-entry/"+shape+"/"+h.raceContext(g, true), fmt.Sprintf("%v missed although every Set that can be the latest one is live and no Delete/Reset/documented cleanup race can explain it; candidates: %s", g, recList(liveSets)))
 }
 
 func overlap(a, b *crec) bool { return startedBefore(a, b) && startedBefore(b, a) }
@@ -372,12 +372,19 @@ func recList(rs []*crec) string {
 	return strings.Join(ls, " ; ")
 }
 
-// removalRaceBefore reports whether, before g completed, some Set of ANY key
-// overlapped an operation able to remove that same key (Delete of the key, a
-// Reset, or a Cleanup/tick whose scan could have met an expired entry of it).
-// It only labels violations (it never excuses one): such a race is what
-// leaves stale pointers in the index of the underlying lock-free map.
-func (h *hist) removalRaceBefore(g *crec) bool {
+// raceContext labels a violation with the kind of concurrency the history
+// contained before g completed. It never excuses anything; it only makes the
+// signature say in which kind of history the failure was seen:
+//
+//	after-set-vs-removal-race - some Set of any key overlapped an operation able
+//	    to remove that same key (Delete of it, a Reset, or a Cleanup/tick whose
+//	    scan could have met an expired entry of it)
+//	after-concurrent-writes - some Set overlapped another goroutine's Set/Delete
+//	    (of any key), Cleanup, tick or Reset
+//	during-removal-of-other-keys - (misses only) the Get itself overlapped a
+//	    Delete of another key, a Cleanup, a tick or a Reset
+//	no-concurrent-writes - none of these
+func (h *hist) raceContext(g *crec, miss bool) string {
 	for key, sets := range h.sets {
 		var removals []*crec
 		for _, w := range h.writers[key] {
@@ -397,43 +404,37 @@ func (h *hist) removalRaceBefore(g *crec) bool {
 			}
 			for _, s := range sets {
 				if startedBefore(s, g) && overlap(s, r) {
-					return true
+					return "after-set-vs-removal-race"
 				}
 			}
 		}
 	}
-	return false
-}
-
-// hitContext labels a stale hit.
-func (h *hist) hitContext(g *crec) string {
-	if h.removalRaceBefore(g) {
-		return "after-set-vs-removal-race"
-	}
-	return "no-earlier-race"
-}
-
-// missContext labels an unexplained miss:
-//
-//	after-set-vs-removal-race - see removalRaceBefore
-//	set-concurrent-with-other-writers - a candidate Set overlapped a Set/Delete
-//	    of any key, a Cleanup, a tick or a Reset of another goroutine
-//	no-earlier-race - neither
-func (h *hist) missContext(g *crec, liveSets []*crec) string {
-	if h.removalRaceBefore(g) {
-		return "after-set-vs-removal-race"
-	}
-	for _, s := range liveSets {
-		for _, r := range h.recs {
-			if r == s || r.g == s.g || r.kind == "get" {
+	for _, sets := range h.sets {
+		for _, s := range sets {
+			if !startedBefore(s, g) {
 				continue
 			}
-			if overlap(r, s) {
-				return "set-concurrent-with-other-writers"
+			for _, r := range h.recs {
+				if r == s || r.g == s.g || r.kind == "get" || !startedBefore(r, g) {
+					continue
+				}
+				if overlap(r, s) {
+					return "after-concurrent-writes"
+				}
 			}
 		}
 	}
-	return "no-earlier-race"
+	if miss {
+		for _, r := range h.recs {
+			if r.g == g.g || r.kind == "get" || r.kind == "set" || (r.kind == "del" && r.key == g.key) {
+				continue
+			}
+			if overlap(r, g) {
+				return "during-removal-of-other-keys"
+			}
+		}
+	}
+	return "no-concurrent-writes"
 }
 
 func (h *hist) judge() (overlaps, atTick int) {
